@@ -39,8 +39,8 @@ func planOf(tier string) plan {
 	if tier == "thorough" {
 		p.histExh = exhCount(4) * len(tests)
 		p.typeSeeded = 1500
-		p.mini = 60000
-		p.hist = 150000
+		p.mini = 40000
+		p.hist = 100000
 	} else {
 		p.histExh = exhCount(3) * len(tests)
 		p.typeSeeded = 150
@@ -118,6 +118,8 @@ const setupSrc = `
 (defflavor c16-fl0 (a) ())
 (defflavor c16-fl (b) (c16-fl0))
 (define-condition c16-cond (error) ())
+(defclass c16-k () ((v :initarg :v)))
+(defflavor c16-k2 ((v 1)) () :initable-instance-variables)
 `
 
 var setupErr string
@@ -132,8 +134,8 @@ func initWorker() {
 func init() {
 	fw.Register(fw.Spec[Case]{
 		ID: "C16",
-		Rule: "five case kinds. row: object i of a fixed 150-object universe of near-collisions (equal numbers in every representation, pointer " +
-			"representations built twice, strings/characters differing in case, lists/vectors built twice and differing in one leaf) against every object, " +
+		Rule: "five case kinds. row: object i of a fixed 175-object universe of near-collisions (equal numbers in every representation, pointer " +
+			"representations built twice, strings/characters differing in case, lists/vectors/hash tables/2-d arrays/instances built twice and differing in one leaf) against every object, " +
 			"all four predicates in both directions, every triple through each related pair, sxhash of each equal pair (exhaustive, same for every seed). " +
 			"mini: a seeded universe of 4-12 objects derived from 2-3 random nested objects by copy / same-value-family substitution / one-leaf change / " +
 			"container change, all pairs and triples; non-trivial = at least one related (equalp) pair of distinct objects. " +
